@@ -444,17 +444,7 @@ Proof.
   assert (Edit : ser_edit_root t v = Ok out -> exists v', de_value t y = Ok v' /\ sval_eq v v')
     by (intro H0; apply (edit_root_equiv _ _ _ _ Hty H0 He)).
   destruct t; try (apply Edit; destruct v; exact H).
-  - (* a Datetime at the root: { FIELD = "text" }, one string entry: read as written *)
-    destruct v; try (apply Edit; exact H).
-    simpl in H. injection H as <-. simpl in Hty. apply andb_true_iff in Hty as [Hr Hk].
-    destruct (equiv_one _ _ _ He) as (y0 & -> & He0). apply equiv_str in He0. subst y0.
-    rewrite (de_root_datetime k d Hr Hk). eexists; split; [reflexivity|constructor].
-  - (* a struct at the root: the same entries as ValueSerializer writes *)
-    destruct v; try (apply Edit; exact H).
-    apply (roundtrip_equiv _ _ out _ Hty); [|exact He]. rewrite sv_struct.
-    rewrite ht_struct in Hty. apply andb_true_iff in Hty as [Hty _]. apply andb_true_iff in Hty as [Hpriv _].
-    apply negb_true_iff in Hpriv. rewrite (private_not_dt name Hpriv). exact H.
-  - (* an enum at the root *)
+  - (* an enum at the root (every other root goes to toml_edit's ValueSerializer, a struct with its name) *)
     destruct v as [| | | | | | | | | | | | | |i p]; try (apply Edit; exact H).
     simpl in H.
     match type of H with pick ?f ?d vs i = _ => destruct (pick_cases f d vs i) as [([vn var] & Hn & E)|[_ E]]; rewrite E in H end;
